@@ -1016,3 +1016,114 @@ Proof.
   pose proof (reachable_inv r1 H1 ops Hok) as I1. pose proof (reachable_inv r2 H2 ops A) as I2.
   fold st1 in I1. fold st2 in I2. rewrite (inv_implied _ I1), (inv_implied _ I2). auto.
 Qed.
+
+(* ------------------------------------------------------------------ no repetitions *)
+Lemma keep_last_NoDup l : NoDup (keep_last l).
+Proof.
+  induction l as [|x t IH]; cbn; [constructor|].
+  destruct (mem x t) eqn:E; auto. constructor; auto.
+  rewrite keep_last_In. now apply mem_false_In.
+Qed.
+
+Lemma NoDup_snoc (l : list node) a : NoDup l -> ~ In a l -> NoDup (l ++ [a]).
+Proof.
+  induction l as [|x l IH]; cbn; intros H N; [constructor; auto; constructor|].
+  inversion H; subst. constructor.
+  - rewrite in_app_iff. cbn. intros [?|[?|[]]]; auto.
+  - apply IH; auto.
+Qed.
+
+Lemma root_last_NoDup r0 l : NoDup l -> NoDup (root_last r0 l).
+Proof.
+  intros H. unfold root_last. destruct l as [|a l]; auto.
+  destruct (last_is r0 (a :: l)); auto.
+  apply NoDup_snoc; [now apply NoDup_filter|].
+  rewrite filter_In, negb_true_iff, Nat.eqb_neq. tauto.
+Qed.
+
+Lemma merge_loop_NoDup fuel : forall seqs acc l, merge_loop fuel seqs acc = MOk l ->
+  NoDup acc -> (forall y, In y acc -> ~ In y (concat seqs)) -> NoDup l.
+Proof.
+  induction fuel as [|f IH]; intros seqs acc l; cbn; [discriminate|].
+  destruct seqs as [|s L].
+  - intros E; injection E as <-. intros H _. now apply NoDup_rev.
+  - destruct (find_next (s :: L)) eqn:E; [|discriminate]. intros H Hacc Hdis.
+    apply find_next_In in E.
+    apply (IH _ _ _ H).
+    + constructor; auto. intros K. exact (Hdis _ K E).
+    + intros y [<-|Hy]; rewrite In_remove_everywhere.
+      * tauto.
+      * intros [K _]. exact (Hdis _ Hy K).
+Qed.
+
+Lemma c3_merge_NoDup seqs l : c3_merge seqs = MOk l -> NoDup l.
+Proof.
+  unfold c3_merge. intros H. eapply merge_loop_NoDup.
+  - exact H.
+  - constructor.
+  - intros y [].
+Qed.
+
+Lemma c3_node_NoDup x bs ms leg l i : c3_node false x bs ms false leg = ROk l i ->
+  NoDup leg -> (forall m, ms = [m] -> NoDup m /\ ~ In x m) -> NoDup l.
+Proof.
+  unfold c3_node. intros H Hleg Hone.
+  assert (G : match c3_merge ([[x]] ++ ms ++ [bs]) with
+              | MOk l => ROk l false | MBad => ROk leg true | MFuel => RFuel end = ROk l i -> NoDup l).
+  { destruct (c3_merge ([[x]] ++ ms ++ [bs])) eqn:E; intros K; inversion K; subst; auto.
+    eapply c3_merge_NoDup; eauto. }
+  destruct bs as [|b [|b' bs']]; auto.
+  destruct ms as [|m [|m' ms']]; auto.
+  inversion H; subst. destruct (Hone m eq_refl). constructor; auto.
+Qed.
+
+Lemma calc_NoDup g r c x : ranked g r -> r x <= fuel_of g -> bases g root = [] ->
+  (forall b, In b (bases g x) -> NoDup (c b) /\ forall t, In t (c b) <-> t = b \/ reach g b t \/ t = root) ->
+  NoDup (calc g c x).
+Proof.
+  intros R Hf Hroot Hc. unfold calc, calc_sro.
+  destruct (Nat.eqb x root) eqn:Ex; [repeat constructor; intros []|].
+  apply Nat.eqb_neq in Ex.
+  destruct (c3_node_members x (bases g x) (map c (bases g x)) (legacy_ro (fuel_of g) g x))
+    as [l [i [E _]]]. rewrite E. apply root_last_NoDup.
+  eapply c3_node_NoDup; eauto.
+  - apply keep_last_NoDup.
+  - intros m Hm. destruct (bases g x) as [|b [|b' bs']] eqn:Eb; try discriminate.
+    cbn in Hm. injection Hm as <-.
+    assert (Hb : In b (bases g x)) by (rewrite Eb; now left).
+    destruct (Hc b (or_introl eq_refl)) as [ND M]. split; auto.
+    rewrite M. intros [-> |[K| ->]]; auto.
+    + apply (ranked_irrefl _ _ R b). now apply reach_base.
+    + apply (ranked_irrefl _ _ R x). eapply reach_step; eauto.
+Qed.
+
+Lemma lc_NoDup g r c (P : node -> Prop) : ranked g r -> (forall x, r x <= fuel_of g) ->
+  bases g root = [] ->
+  (forall y b, P y -> In b (bases g y) -> P b) ->
+  (forall y, P y -> lc_at g c y) ->
+  forall n y, P y -> r y < n -> NoDup (c y).
+Proof.
+  intros R Hb Hroot Hcl Hlc n. induction n as [|n IH]; intros y Py Hn; [lia|].
+  rewrite (Hlc y Py). apply (calc_NoDup g r c y R (Hb y) Hroot).
+  intros b Hbb. pose proof (R _ _ Hbb). split.
+  - apply IH; [eapply Hcl; eauto | lia].
+  - eapply (lc_members g r c P R Hb Hroot Hcl Hlc (S (r b))); eauto.
+Qed.
+
+Lemma inv_NoDup st : Inv st -> forall S, In S (live st) -> NoDup (sro st S).
+Proof.
+  intros I S HS. destruct (inv_rank st I) as [R B].
+  eapply (lc_NoDup (gr st) _ (sro st) (fun y => In y (live st)) R B).
+  - apply (inv_root _ I).
+  - intros y b; apply (inv_closed _ I).
+  - apply (inv_lc _ I).
+  - exact HS.
+  - apply Nat.lt_succ_diag_r.
+Qed.
+
+Lemma sro_nodup_lemma (reorder : list node -> list node) :
+  (forall l y, In y (reorder l) <-> In y l) ->
+  forall ops, hist_ok reorder init ops = true ->
+  let st := fold_left (step reorder) ops init in
+  forall S, In S (live st) -> NoDup (get_sro st S).
+Proof. intros H ops Hok st S HS. apply inv_NoDup; auto. now apply reachable_inv. Qed.
